@@ -53,7 +53,7 @@ def _perm_menu(n, k, cap=24):
 
 
 class Rng:
-    def __init__(self, mode="tap", script=None, policy="first", seed=0, only=None):
+    def __init__(self, mode="tap", script=None, policy="first", seed=0, only=None, uniform_menu=None):
         assert mode in ("tap", "script")
         self.mode, self.script, self.policy = mode, list(script or []), policy
         self.seed = seed
@@ -61,6 +61,7 @@ class Rng:
         self.trace = []  # (decision, nbranch) per scripted choice point
         self._pol = _random.Random(f"policy/{seed}")
         self.only = only  # optional set of primitive names to script; others are tapped
+        self.uniform_menu = uniform_menu or UNIFORM_MENU
 
     # -------------------------------------------------------------- plumbing
     def __enter__(self):
@@ -156,7 +157,7 @@ class Rng:
 
     def _uniform(self, a, b):
         if self._scripted("random.uniform"):
-            menu = [a + (b - a) * x for x in UNIFORM_MENU]
+            menu = [a + (b - a) * x for x in self.uniform_menu]
             d = self._decide(len(menu))
             self._ev("random.uniform", a=a, b=b, result=menu[d], decision=d, nbranch=len(menu))
             return menu[d]
